@@ -24,9 +24,11 @@ INV = {"/base_mva": "*base_mva", "*deg2rad": "*rad2deg", "": ""}
 
 def _scale(expr):
     """(core expression, scale tag) for `x / base_mva`, `x * deg2rad`, `x * base_mva`, `x * rad2deg`, or plain."""
-    if isinstance(expr, ast.BinOp) and isinstance(expr.right, ast.Name):
-        r = expr.right.id
-        if isinstance(expr.op, ast.Div) and r in ("base_mva", "mbase"):
+    if isinstance(expr, ast.BinOp) and isinstance(expr.right, (ast.Name, ast.Attribute)):
+        r = dotted(expr.right)
+        if r in ("system.config.mva", "mbase"):       # the system base, however it is spelled (alias resolved by engine/alpha)
+            r = "base_mva"
+        if isinstance(expr.op, ast.Div) and r == "base_mva":
             return expr.left, "/base_mva"
         if isinstance(expr.op, ast.Mult) and r in ("deg2rad", "rad2deg", "base_mva"):
             return expr.left, "*" + r
@@ -370,8 +372,11 @@ def rule_raw_formulas(ctx, repo):
             for a_, d_ in alias.items():
                 want2 = re.sub(r"\b%s\b" % a_, d_, want2)
             try:
-                g_ = to_sympy(ast.parse(txt2, mode="eval").body)
-                w_ = to_sympy(ast.parse(want2, mode="eval").body)
+                # the reference writes the system base as `mva`; in the program that is (an alias of) system.config.mva
+                from engine import alpha as _alpha
+                ren_ = {_alpha.resolve_dotted("mva", fn): sp.Symbol("mva"), "system.config.mva": sp.Symbol("mva")}
+                g_ = to_sympy(ast.parse(txt2, mode="eval").body, ren_)
+                w_ = to_sympy(ast.parse(want2, mode="eval").body, ren_)
             except (PyExprError, SyntaxError):
                 continue
             if sp.simplify(g_ - w_) != 0:
